@@ -321,7 +321,7 @@ func c11GenSeqN(c *engine.C, maxQ, maxT int) engine.Case {
 }
 
 var c11AnnKinds = []string{"Test", "Ignore", "Test+Ignore", "Ignore+Test", "none", "Before"}
-var c11Locs = []string{"suffix-Test", "suffix-Tests", "maven-test", "production-main", "production-flat"}
+var c11Locs = []string{"suffix-Test", "suffix-Tests", "maven-test", "production-main", "production-flat", "maven-test-root", "maven-test-lookalike"}
 
 func c11GenTree(c *engine.C) engine.Case {
 	layout, _ := pickLayout(c)
@@ -343,6 +343,14 @@ func c11GenTree(c *engine.C) engine.Case {
 		case "maven-test":
 			name = base + "Spec"
 			unit.path, unit.isTest = filepath.Join("src/test/java/p", name+".java"), true
+		case "maven-test-root":
+			// a test class lying directly in the test source root (no package directory), without a test-like name
+			name = base + "Check"
+			unit.path, unit.isTest = filepath.Join("src/test/java", name+".java"), true
+		case "maven-test-lookalike":
+			// production code below a directory that merely resembles the Maven test tree
+			unit.path = filepath.Join("src/test/javax/p", name+".java")
+			c.Tag("production-class-with-@Test")
 		case "production-main":
 			unit.path = filepath.Join("src/main/java/p", name+".java")
 			c.Tag("production-class-with-@Test")
